@@ -47,10 +47,11 @@ const (
 	evUpdProg
 	evRemProg
 	evObserve // concurrent part only: take a Processes() snapshot
+	evEndOld  // late EndQuery of a statement that was superseded by a newer BeginQuery on its connection
 	nEvKinds
 )
 
-var evNames = [...]string{"AddConnection", "ConnectionReady", "BeginQuery", "EndQuery", "BeginOperation", "EndOperation", "Kill", "RemoveConnection", "AddTableProgress", "UpdateTableProgress", "RemoveTableProgress", "Processes"}
+var evNames = [...]string{"AddConnection", "ConnectionReady", "BeginQuery", "EndQuery", "BeginOperation", "EndOperation", "Kill", "RemoveConnection", "AddTableProgress", "UpdateTableProgress", "RemoveTableProgress", "Processes", "EndQuery(superseded)"}
 
 type event struct {
 	Kind evKind `json:"kind"`
@@ -78,6 +79,10 @@ type mctx struct {
 	pid       uint64
 	cancelled bool // expected
 	ended     bool
+	// superseded: a newer statement began on the same connection before this one ended (its
+	// iterator is closed late). The property only says that ending it must not affect the newer
+	// statement; whether its own context gets cancelled is not specified and not compared.
+	superseded bool
 }
 
 type model struct {
@@ -88,6 +93,9 @@ type model struct {
 	nq       [maxConns + 1]uint64 // queries begun per connection (pids are conn*1000+n on both sides)
 	lateEnds int // queries whose connection was removed while running and that have since ended
 	lateOpen int // ... and that have not ended yet
+	// overlapped: some statement was superseded; Threads_running is then unspecified (the counter
+	// has no defined meaning for overlapping statements of one connection) and not compared.
+	overlapped bool
 }
 
 func newModel() *model {
@@ -122,7 +130,17 @@ func (m *model) running() int {
 func (m *model) outstanding(conn int, query bool) int {
 	for i := len(m.ctxs) - 1; i >= 0; i-- {
 		c := m.ctxs[i]
-		if c.conn == conn && c.isQuery == query && !c.ended {
+		if c.conn == conn && c.isQuery == query && !c.ended && !c.superseded {
+			return i
+		}
+	}
+	return -1
+}
+
+// supersededOpen returns the index of conn's superseded, un-ended query context, or -1.
+func (m *model) supersededOpen(conn int) int {
+	for i, c := range m.ctxs {
+		if c.conn == conn && c.superseded && !c.ended {
 			return i
 		}
 	}
@@ -137,8 +155,13 @@ func (m *model) enabled(e event) bool {
 		return m.st[c] == stAbsent
 	case evReady:
 		return m.st[c] == stConnecting
-	case evBeginQuery, evBeginOp:
+	case evBeginQuery:
+		// also while a statement is running (its iterator is closed late), once per connection at a time
+		return m.st[c] == stIdle || (m.st[c] == stRunning && m.supersededOpen(c) < 0)
+	case evBeginOp:
 		return m.st[c] == stIdle
+	case evEndOld:
+		return m.supersededOpen(c) >= 0
 	case evEndQuery:
 		return m.outstanding(c, true) >= 0
 	case evEndOp:
@@ -160,7 +183,13 @@ func (m *model) apply(e event) {
 		m.st[c] = stConnecting
 	case evReady:
 		m.st[c] = stIdle
+	case evEndOld:
+		m.ctxs[m.supersededOpen(c)].ended = true
 	case evBeginQuery:
+		if m.st[c] == stRunning {
+			m.ctxs[m.cur[c]].superseded = true
+			m.overlapped = true
+		}
 		m.nq[c]++
 		m.ctxs = append(m.ctxs, mctx{conn: c, isQuery: true, pid: uint64(c)*1000 + m.nq[c]})
 		m.cur[c] = len(m.ctxs) - 1
@@ -249,9 +278,9 @@ func (m *model) key() string {
 	var sb strings.Builder
 	sb.WriteString(m.snapshot())
 	for _, c := range m.ctxs {
-		fmt.Fprintf(&sb, "|%d%v%v%v", c.conn, c.isQuery, c.cancelled, c.ended)
+		fmt.Fprintf(&sb, "|%d%v%v%v%v", c.conn, c.isQuery, c.cancelled, c.ended, c.superseded)
 	}
-	fmt.Fprintf(&sb, "|late%d/%d|", m.lateOpen, m.lateEnds)
+	fmt.Fprintf(&sb, "|late%d/%d/%v|", m.lateOpen, m.lateEnds, m.overlapped)
 	for c := 1; c <= maxConns; c++ {
 		fmt.Fprintf(&sb, "%d", m.st[c])
 	}
@@ -335,7 +364,7 @@ func (s *sys) apply(e event, endIdx int) (newIdx int, err error) {
 		}
 		s.ctxs = append(s.ctxs, nctx)
 		newIdx = len(s.ctxs) - 1
-	case evEndQuery:
+	case evEndQuery, evEndOld:
 		s.pl.EndQuery(s.ctxs[endIdx])
 	case evEndOp:
 		s.pl.EndOperation(s.ctxs[endIdx])
@@ -385,6 +414,9 @@ func (s *sys) compare(m *model, last event) *diff {
 		return &diff{"process-list", "wrong-list", got, want, map[string]string{"after": evNames[last.Kind]}}
 	}
 	for i, mc := range m.ctxs {
+		if mc.superseded {
+			continue
+		}
 		got := s.ctxs[i].Err() != nil
 		if got != mc.cancelled {
 			kind := "not-cancelled"
@@ -401,6 +433,9 @@ func (s *sys) compare(m *model, last event) *diff {
 	}
 	if got, want := counter("Threads_connected")-s.base[0], int64(m.connected()); got != want {
 		return &diff{"threads-connected", "counter-mismatch", fmt.Sprint(got), fmt.Sprint(want), map[string]string{"after": evNames[last.Kind]}}
+	}
+	if m.overlapped {
+		return nil
 	}
 	got := counter("Threads_running") - s.base[1]
 	lo := int64(m.running())
@@ -425,6 +460,7 @@ func seqAlphabet(nconn int) []event {
 		for k := evAdd; k <= evRemProg; k++ {
 			a = append(a, event{k, c})
 		}
+		a = append(a, event{evEndOld, c})
 	}
 	return a
 }
@@ -450,6 +486,8 @@ func seqStep(r *core.Run, alpha []event) func(h []int) (string, bool) {
 			switch e.Kind {
 			case evEndQuery:
 				endIdx = m.outstanding(e.Conn, true)
+			case evEndOld:
+				endIdx = m.supersededOpen(e.Conn)
 			case evEndOp:
 				endIdx = m.outstanding(e.Conn, false)
 			case evAddProg, evUpdProg, evRemProg:
@@ -471,7 +509,7 @@ func seqStep(r *core.Run, alpha []event) func(h []int) (string, bool) {
 					Witness: core.J(map[string]any{"history": h, "labels": labels(alpha, h)}), Observed: d.observed, Expected: d.expected})
 				return "", false
 			}
-			if e.Kind == evKill || e.Kind == evRemove || e.Kind == evEndQuery {
+			if e.Kind == evKill || e.Kind == evRemove || e.Kind == evEndQuery || e.Kind == evEndOld {
 				r.NonTrivial(fmt.Sprint(h))
 			}
 		}
@@ -515,6 +553,7 @@ func lifecycles(conn int) [][]event {
 		mk(evAdd, evReady, evBeginOp, evEndOp, evBeginQuery, evEndQuery),
 		mk(evAdd, evReady, evBeginQuery, evAddProg, evUpdProg, evEndQuery),
 		mk(evAdd, evReady, evBeginQuery, evEndQuery, evBeginQuery, evEndQuery),
+		mk(evAdd, evReady, evBeginQuery, evBeginQuery, evEndOld, evEndQuery, evRemove),
 	}
 }
 
@@ -572,14 +611,17 @@ func runScenario(sc scenario, choose func(i int, cands []int, runningIn bool) in
 			for _, e := range prog {
 				endIdx := -1
 				switch e.Kind {
-				case evEndQuery:
+				case evEndOld:
 					endIdx = myQuery[0]
 					myQuery = myQuery[1:]
+				case evEndQuery:
+					endIdx = myQuery[len(myQuery)-1]
+					myQuery = myQuery[:len(myQuery)-1]
 				case evEndOp:
 					endIdx = myOp[0]
 					myOp = myOp[1:]
 				case evAddProg, evUpdProg, evRemProg:
-					endIdx = myQuery[0]
+					endIdx = myQuery[len(myQuery)-1]
 				}
 				idx, err := s.apply(e, endIdx)
 				if err != nil {
